@@ -218,6 +218,9 @@ func ParseVpsSpsPpsFromSeqHeader(payload []byte) (vps, sps, pps []byte, err erro
 }
 
 func ParseVpsSpsPpsFromEnhancedSeqHeader(payload []byte) (vps, sps, pps []byte, err error) {
+	if len(payload) < 5 {
+		return nil, nil, nil, nazaerrors.Wrap(base.ErrShortBuffer)
+	}
 	packetType := payload[0] & 0x0f
 
 	if packetType == 0 {
@@ -293,6 +296,11 @@ func parseVpsSpsPpsAnnexbFromRecord(payload []byte) (vps, sps, pps []byte, err e
 }
 
 func parseVpsSpsPpsFromRecord(payload []byte) (vps, sps, pps []byte, err error) {
+	// 5字节头 + 22字节HEVCDecoderConfigurationRecord固定部分 + numOfArrays + 第一个数组的头部5字节
+	if len(payload) < 33 {
+		return nil, nil, nil, nazaerrors.Wrap(base.ErrShortBuffer)
+	}
+
 	index := 27
 	if numOfArrays := payload[index]; numOfArrays != 3 && numOfArrays != 4 {
 		return nil, nil, nil, nazaerrors.Wrap(base.ErrHevc)
